@@ -1,4 +1,5 @@
 import ALock.Lemmas.Sem
+import ALock.Atomic.Calls
 
 /-!
 # C07 — Semaphore: every available permit reaches a waiter
@@ -313,3 +314,13 @@ example :
     s.woken = [2] ∧ 0 < s.count := by decide
 
 end ALock.Sem
+
+/-! ## Where the notifications are sent (generated site table) -/
+
+namespace ALock.Atomic.Calls
+
+/-- every operation of `src/semaphore.rs` on the counter and every `listen` / `notify` on its event,
+function by function in source order (generated table) -/
+theorem C07_calls_ok : fileShapes "src/semaphore.rs" = semaphoreExpected := by decide
+
+end ALock.Atomic.Calls
